@@ -50,6 +50,12 @@ Rules4 ==
                         Field("next", Opt(Expect(Right(Rgx(RxPlus(Cls(<<sp, NL>>))), Ref("Word")))))>>),
       Word  |-> Class(<<Field("w", WordRx)>>) ]
 
+(* a class whose members move backwards: the instance ends before it starts (no span is judged, nothing may break) *)
+Rules5 ==
+    [ start |-> Rule(Star(Ref("Tok"))),
+      Tok   |-> Class(<<Field("w", WordRx), Field("mark", Opt(Ref("Prev"))), Field("rest", Opt(Rgx(Cls(<<a, b>>))))>>),
+      Prev  |-> Class(<<PassM(Back(1))>>) ]
+
 Ign == <<Rgx(RxPlus(Cls(<<sp, NL>>)))>>
 
 Grammar(i) ==
@@ -59,11 +65,13 @@ Grammar(i) ==
       [] i = 4 -> [rules |-> Rules2, ign |-> Ign, start |-> "start"]
       [] i = 5 -> [rules |-> Rules3, ign |-> Ign, start |-> "start"]
       [] i = 6 -> [rules |-> Rules4, ign |-> <<>>, start |-> "start"]
+      [] i = 7 -> [rules |-> Rules5, ign |-> <<>>, start |-> "start"]
 
 Entries(i) == CASE i \in {1, 2} -> <<"start", "Item", "Group">>
                 [] i \in {3, 4} -> <<"start", "A">>
                 [] i = 5 -> <<"start", "T">>
                 [] i = 6 -> <<"start", "H">>
+                [] i = 7 -> <<"start", "Tok">>
 
 N == IF Tier = "quick" THEN 4 ELSE 5
 Texts(i) ==
@@ -74,12 +82,13 @@ Texts(i) ==
       [] i = 3 -> TextSeqUpTo(<<a, b>>, N + 1)
       [] i = 4 -> TextSeqUpTo(<<a, b, sp, NL>>, N) \o << <<b, NL, a, sp, b, NL, a, NL>> >>
       [] i = 5 -> TextSeqUpTo(<<a, plus, sp, NL>>, N) \o << <<a, sp, plus, NL, b, plus, a, b, NL>> >>
+      [] i = 7 -> TextSeqUpTo(<<a, b, sp>>, N)
       [] i = 6 -> TextSeqUpTo(<<a, sp, NL>>, N + 1) \o << <<a, b, NL, NL, b, a, sp, a>>, <<a, sp, NL, sp, b, b, NL>> >>
 
 VARIABLES gi, en, done
 vars == <<gi, en, done>>
 
-Init == gi \in 1..6 /\ en \in 1..Len(Entries(gi)) /\ done = FALSE
+Init == gi \in 1..7 /\ en \in 1..Len(Entries(gi)) /\ done = FALSE
 
 RunF(G, entry, txt, p) ==
     LET r == EvalEntry(G, entry, txt, p) IN <<entry, txt, p, r.t, Finalize(r.v, txt), r.e, r.far>>
@@ -105,7 +114,7 @@ SpansOK(v, lo, hi) ==
       [] OTHER -> TRUE
 
 LawNesting ==
-    (done /\ gi # 6) =>          \* (lookahead aside, as the property says)
+    (done /\ gi \notin {6, 7}) =>          \* (lookahead aside, as the property says)
     \A j \in 1..Len(Texts(gi)) :
         LET r == EvalEntry(Grammar(gi), Entries(gi)[en], Texts(gi)[j], 0) IN
         r.t = "ok" => SpansOK(r.v, 0, r.e)
